@@ -91,6 +91,14 @@ def check(P, R):
                 for t in st.targets:
                     if isinstance(t, ast.Subscript):
                         stored.append((st, st.value))
+            if isinstance(st, ast.Call) and isinstance(st.func, ast.Name) and (T.resolved_callee(f, st) or '').split('.')[-1] in ('append', 'setdefault') \
+                    and '.' in (T.resolved_callee(f, st) or ''):
+                # the bound method picked into a local first: `store = self._ts.dict.setdefault; store(key, v)`
+                rc_ = T.resolved_callee(f, st).split('.')[-1]
+                if rc_ == 'append' and len(st.args) == 1:
+                    stored.append((st, st.args[0]))
+                elif rc_ == 'setdefault' and len(st.args) == 2:
+                    stored.append((st, st.args[1]))
             if isinstance(st, ast.Call) and call_attr(st) in ('append', 'setdefault') and isinstance(st.func.value, (ast.Name, ast.Attribute)) \
                     and st is not f.node:
                 if call_attr(st) == 'append' and len(st.args) == 1:
@@ -165,6 +173,11 @@ def value_is_guarded(f, v, sn, vparam, allow_list_branch=False):
             return value_is_guarded(f, scalar, sn, vparam)
         # `value if v is None else [v, value]`: whichever arm is taken
         return value_is_guarded(f, v.body, sn, vparam) and value_is_guarded(f, v.orelse, sn, vparam)
+    if isinstance(v, ast.Name) and v.id == vparam and allow_list_branch and all(d.kind == 'param' for d in rd.at(sn, v.id)):
+        # the list branch written as a statement: `if isinstance(value, list): return store(key, value)`
+        for (e_, holds_, _t) in T.guard_atoms(f, sn):
+            if holds_ and isinstance(e_, ast.Call) and dotted(e_.func) == 'isinstance' and len(e_.args) == 2 and src(e_.args[0]) == vparam and src(e_.args[1]) == 'list':
+                return True
     if isinstance(v, ast.Name):
         defs = rd.at(sn, v.id)
         return bool(defs) and all(d.kind == 'assign' and d.value is not None and value_is_guarded(f, d.value, d.node, vparam, allow_list_branch) for d in defs)
@@ -634,6 +647,9 @@ def check_setters_always_store(P, R, rid, why):
                 if isinstance(x, ast.Assign) and any(isinstance(t, ast.Subscript) for t in x.targets):
                     stores.append(nd)
                 if isinstance(x, ast.Call) and call_attr(x) in ('setdefault', 'append', '__setitem__') and x is not None and not (isinstance(x.func.value, ast.Name) and x.func.value.id == 'self'):
+                    stores.append(nd)
+                if isinstance(x, ast.Call) and isinstance(x.func, ast.Name) and '.' in (T.resolved_callee(m, x) or '') and \
+                        T.resolved_callee(m, x).split('.')[-1] in ('setdefault', 'append', '__setitem__'):
                     stores.append(nd)
         n += 1
         ok = bool(stores) and g.must_pass(g.entry, g.exit, stores)
